@@ -422,7 +422,7 @@ theorem show_step {c : DrawCfg} (hrw : RwOk c.rw) (hct : c.cornerTrick = false) 
     have hres := resize_diff wd.sw.s wd.sw.ttyw wd.sw.ttyh hsz
     generalize hs1 : Scr.mk wd.sw.ttyw wd.sw.ttyh (wd.sw.s.cells.resize wd.sw.ttyw wd.sw.ttyh).invalidate wd.sw.s.style
       wd.sw.s.curstyle (-1) (-1) wd.sw.s.cursorx wd.sw.s.cursory wd.sw.s.cursorStyle wd.sw.s.cursorColor wd.sw.s.clear
-      wd.sw.s.fini = s1 at hres
+      wd.sw.s.fini wd.sw.s.cursorShaped wd.sw.s.cursorTinted = s1 at hres
     have hstep : wd.step c .show =
         { sw := { wd.sw with s := (s1.draw c).1 }, t := wd.t.applyAll (s1.draw c).2, trusted := true,
           d := some wd.sw.s.style, fresh := false } := by
